@@ -77,7 +77,7 @@ def main(tier):
     from concurrent.futures import ThreadPoolExecutor
     plan = [("zkinterface", 251), ("zkinterface", 0), ("zkifbellman", 0), ("zkifbulletproofs", 0)]
     if tier != "quick":
-        plan += [("zkifbellman", 65521), ("zkifbulletproofs", 13)]
+        plan += [("zkifbellman", 32749), ("zkifbulletproofs", 13)]
     for backend, smallp in plan:
         progs = c10_check.programs(tier, common.seed(), bool(smallp))
         if not smallp and backend != "zkinterface":
